@@ -74,28 +74,39 @@ def cap(index, rep, fn):
     T = it0.to_rat(Path(("ci", "MINIMUM_PERCENT_FED_BEFORE_NONHUMAN_CONSUMPTION_ALLOWED")))
     PF = it0.to_rat(Path(("r1", "percent_people_fed")))
     seen = 0
+    from .rat import feasible
+    neg = {"<": ">=", "<=": ">", ">": "<=", ">=": "<", "==": "!=", "!=": "=="}
+    arms = set()
     for _, dec, env, it in envs:
         if isinstance(env, Abort):
             continue
-        if len(dec) != 1:
-            raise AnalysisError(f"ceiling computation forks on {list(dec)} (expected one comparison of percent fed with the threshold)")
-        (key, val), = dec.items()
-        # key is `(pf - T) > 0` or a variant: decide which side is larger on this branch
-        pf_gt_t = _branch_means_pf_greater(key, val)
-        if pf_gt_t is None:
-            raise AnalysisError(f"unrecognised ceiling guard {key}")
+        missing = [k for k in dec if k not in it.pred_exprs]
+        if missing:
+            raise AnalysisError(f"ceiling computation forks on {missing} (expected comparisons of percent fed with the threshold)")
+        cons = [(it.pred_exprs[k][0], it.pred_exprs[k][1] if v else neg[it.pred_exprs[k][1]]) for k, v in dec.items()]
+        # data assumption: threshold and round-1 result are non-negative percentages
+        cons0 = cons + [(T, ">="), (PF, ">=")]
+        if not feasible(cons0):
+            continue
         got = env.get("kcals_daily_maximum")
-        want = KD * (T if pf_gt_t else PF) / Rat.const(100)
+        # which of the two candidate ceilings do this leaf's conditions select?
+        pf_ge_t = not feasible(cons0 + [(PF - T, "<")])   # conditions imply percent fed >= threshold
+        pf_le_t = not feasible(cons0 + [(PF - T, ">")])   # conditions imply percent fed <= threshold
+        label = "pf1>T" if pf_ge_t and not pf_le_t else ("pf1<=T" if pf_le_t and not pf_ge_t else ("pf1=T" if pf_ge_t else "pf1?T"))
+        arms.add(label)
+        want = [KD * T / Rat.const(100)] if pf_ge_t else []
+        want += [KD * PF / Rat.const(100)] if pf_le_t else []
         seen += 1
-        rep.check(isinstance(got, Rat) and got == want, rule, f"ceiling[{'pf1>T' if pf_gt_t else 'pf1<=T'}]",
-                  "the daily kcal ceiling is not KCALS_DAILY x min(threshold, round-1 percent fed)/100 on this branch",
-                  loc=loc(PARAMS, fn), detail=f"got {got}; want {want}")
+        where = " and ".join(f"{c[0]} {c[1]} 0" for c in cons)
+        rep.check(isinstance(got, Rat) and any(got == w for w in want), rule, f"ceiling[{label}]" + ("" if label != "pf1?T" else f"[{where}]"),
+                  "the daily kcal ceiling is not KCALS_DAILY x min(threshold, round-1 percent fed)/100 when " + where,
+                  loc=loc(PARAMS, fn), detail=f"got {got}; want one of {[str(w) for w in want]}")
         fdm = env.get("food_daily_maximum")
         ok = isinstance(fdm, PDict) and isinstance(fdm.d.get("kcals"), Rat) and fdm.d["kcals"] == got
-        rep.check(ok, rule, f"ceiling-object[{'pf1>T' if pf_gt_t else 'pf1<=T'}]",
+        rep.check(ok, rule, f"ceiling-object[{label}]" + ("" if label != "pf1?T" else f"[{where}]"),
                   "food_daily_maximum.kcals is not the computed ceiling", loc=loc(PARAMS, fn))
-    if seen != 2:
-        raise AnalysisError(f"ceiling: {seen} branches analysed, expected 2")
+    if not {"pf1>T", "pf1<=T"} <= arms and not ({"pf1>T", "pf1<=T", "pf1=T"} & arms and seen >= 2):
+        raise AnalysisError(f"ceiling: arms {sorted(arms)} analysed, expected percent fed above and below the threshold")
     rep.require_min(rule, 4)
 
 
@@ -137,24 +148,46 @@ def greedy(index, rep, fn):
     if len(closures) != 1:
         raise AnalysisError("consume() closure not found inside the month loop")
     c = closures[0]
-    it = Interp()
     f, r = Rat.atom(("food",)), Rat.atom(("remaining",))
-    env = {c.args.args[0].arg: f, "remaining_kcals": r}
-    ret = None
+    from .symx import _Return
+    from .rat import feasible
+    neg = {"<": ">=", "<=": ">", ">": "<=", ">=": "<", "==": "!=", "!=": "=="}
+
+    def runit(it):
+        env = {c.args.args[0].arg: f, "remaining_kcals": r}
+        try:
+            it.exec_block(c.body, env)
+        except _Return as e:
+            return e.value, env
+        return None, env
+
     try:
-        it.exec_block(c.body, env)
-    except Exception as e:
-        from .symx import _Return
-        if isinstance(e, _Return):
-            ret = e.value
-        else:
-            raise AnalysisError(f"consume() outside the analysed fragment: {e}")
-    mn = [a for a in (ret.atoms() if isinstance(ret, Rat) else []) if isinstance(a, tuple) and a[:2] == ("call", "min")]
-    ok = isinstance(ret, Rat) and len(mn) == 1 and ret == Rat.atom(mn[0]) and set(mn[0][2:]) == {str(f), str(r)}
-    rep.check(ok, rule, "consume:returns-min(food,remaining)", "consume() does not return min(food, remaining)", loc=loc(PARAMS, c),
-              detail=str(ret))
-    ok2 = ok and isinstance(env.get("remaining_kcals"), Rat) and env["remaining_kcals"] == r - ret
-    rep.check(ok2, rule, "consume:remaining-reduced-by-consumed", "remaining is not reduced by exactly the amount consumed", loc=loc(PARAMS, c))
+        leaves = explore(runit, month_classes=False)
+    except Unsupported as e:
+        raise AnalysisError(f"consume() outside the analysed fragment: {e}")
+    n_leaves = 0
+    for _, dec, res, it in leaves:
+        if isinstance(res, Abort):
+            continue
+        ret, env = res
+        missing = [k for k in dec if k not in it.pred_exprs]
+        if missing:
+            raise AnalysisError(f"consume() forks on {missing}")
+        cons = [(it.pred_exprs[k][0], it.pred_exprs[k][1] if v else neg[it.pred_exprs[k][1]]) for k, v in dec.items()]
+        if not feasible(cons):
+            continue
+        n_leaves += 1
+        where = " and ".join(f"{x[0]} {x[1]} 0" for x in cons) or "always"
+        f_le_r = not feasible(cons + [(f - r, ">")])
+        r_le_f = not feasible(cons + [(r - f, ">")])
+        ok = isinstance(ret, Rat) and ((ret == f and f_le_r) or (ret == r and r_le_f))
+        rep.check(ok, rule, "consume:returns-min(food,remaining)" + ("" if ok else f"[{where}]"),
+                  f"consume() does not return min(food, remaining) when {where}", loc=loc(PARAMS, c), detail=str(ret))
+        ok2 = ok and isinstance(env.get("remaining_kcals"), Rat) and env["remaining_kcals"] == r - ret
+        rep.check(ok2, rule, "consume:remaining-reduced-by-consumed" + ("" if ok2 else f"[{where}]"),
+                  "remaining is not reduced by exactly the amount consumed", loc=loc(PARAMS, c))
+    if n_leaves < 2:
+        raise AnalysisError("consume(): fewer than two cases (food <= remaining, food > remaining) analysed")
     has_nonlocal = any(isinstance(s, ast.Nonlocal) and "remaining_kcals" in s.names for s in c.body)
     rep.check(has_nonlocal, rule, "consume:shares-remaining", "consume() no longer updates the enclosing remaining_kcals (nonlocal)", loc=loc(PARAMS, c))
     rep.require_min(rule, 6)
